@@ -61,6 +61,15 @@ CHECKS['C14'] = dict(level=MC, ref='4 C14',
     note='bounded: 140 (quick) / 2100 (thorough) programs of 7/9 steps from tensordot, add, trace, transpose, fuse/unfuse, conj, vdot, diag, broadcast, apply_mask, add/remove_leg; '
          'svd/qr are compared across policies in C04 (gauge-invariant observables); contract_with_unroll (paths, unrolling, slicing) is NOT covered yet',
     technique='TLA+ hyper-property over executions (TraceHyper) + per-execution trace validation against TensorOps')
+CHECKS['C05'] = dict(level=MC, ref='4 C05',
+    text='(a) swap_gate / swap_gate(charge=): recorded programs under fermionic True/False/per-component flags validated by TLC against TensorOps!SwapGate/SwapCharge (sign fixed by the parities of the '
+         'swapped charges in the fermionic components only; involution and identity-when-bosonic follow from the reference). (b) ncon/einsum: for random small networks with swaps on open and '
+         'contracted legs and tensors of odd/even charge, the real result for EVERY contraction order (<=24) and einsum must equal the single ORDER-FREE value TLC computes with TensorOps!Ncon '
+         '(sum over label assignments with the crossing signs). (c) fkron: FockMC.tla model-checks the CAR for the graded Fock model (all / per-species / none), and TraceFock.tla requires the dense matrix '
+         'of every fkron call (all site permutations and application orders of <=3 operators, spinless Z2/U1 and spinful Z2/U1/U1xU1/U1xU1xZ2) to equal the ordered operator product.',
+    note='bounded: 150/2500 swap programs, 600/8000 networks of 2-4 tensors with two sectors per leg and mostly dimension one, <=24 orders each; fkron <=3 operators; two KNOWN FINDINGS (ncon scheduler: '
+         'swap on a traced label; AssertionError in _resolve_bad_swaps) are reproduced and reported on every run',
+    technique='TLA+ reference semantics (TensorOps!SwapGate/Ncon, Fock) + TLC model checking of the CAR + trace validation of recorded calls for all contraction orders')
 NA = {}
 m = {"version": 1, "setup_cmd": "true",
      "hooks": {"guard": "YASTN_VERIF", "enable": "no source hooks so far: the harness wraps the public API from outside and imports yastn live from /repo (override: VERIF_REPO)",
